@@ -176,8 +176,22 @@ def run(P: Program, R: Report, tier: str) -> None:
         "the closure adds nx.ancestors of every selected node and removes nothing",
     ]
     R.not_decided += ["contents of the written files"]
-    exporters = [P.func_named("export_to_csv"), P.func_named("export_to_geff")]
-    for f in exporters:
+    # the exporters and every facade of the same name that takes the selection (deprecated import locations forward it)
+    exporters = [f for nm in ("export_to_csv", "export_to_geff") for f in P.find_funcs(nm) if f.parent is None and f.cls is None and "node_ids" in f.params]
+    mains = [f for f in exporters if any(isinstance(c, ast.Call) and call_name(c) == CLOSURE for c in ast.walk(f.node))]
+    if len(mains) < 2:
+        raise AnalysisError(f"exporters that take the ancestor closure of a selection: found {len(mains)}")
+    for f in [x for x in exporters if x not in mains]:
+        # a facade: the selection is handed on unchanged (or only tested with `is None`)
+        pm = parent_map(f.node)
+        for u in uses_of(f.node, "node_ids"):
+            par = pm.get(u)
+            ok = isinstance(par, ast.keyword) and par.arg == "node_ids" or (isinstance(par, ast.Call) and u in par.args) or (
+                isinstance(par, ast.Compare) and len(par.ops) == 1 and isinstance(par.ops[0], (ast.Is, ast.IsNot)) and norm(par.comparators[0]) == "None")
+            R.check(ok, "R15.1", f, u, f"{f.short} (facade): the selection is forwarded as it is",
+                    f"`node_ids` is used in `{norm(par)[:80]}`: a facade that tests or rewrites the selection changes which nodes are exported "
+                    "(an empty selection tested by truthiness becomes 'no selection' = everything)", via="taint")
+    for f in mains:
         if "node_ids" not in f.params:
             raise AnalysisError(f"{f.short} has no node_ids parameter")
         pm = parent_map(f.node)
